@@ -25,6 +25,7 @@ class _State:
     def __init__(self):
         self.rng = random.Random(0)
         self.canonical = True  # order_seed == 0: sorted order, FIFO ties
+        self.tie_policy = "fifo"
         self.fs_salt = 0
         self.log = hashlib.blake2b(digest_size=8)
         self.stats = {
@@ -58,6 +59,9 @@ def begin(order_seed, epoch=True):
     ST.canonical = order_seed == 0
     ST.rng = random.Random(mix(order_seed, "order"))
     salt = ST.rng.getrandbits(30)
+    # tie-break policy among equal priorities: any order is a legal heap, so
+    # the scheduler may also be adversarial (longest span first / LIFO)
+    ST.tie_policy = "fifo" if ST.canonical else ST.rng.choice(["random", "random", "longest", "lifo"])
     if epoch:
         ST.fs_salt = salt
     _note(b"B", order_seed & 0xFFFFFFFF)
@@ -184,7 +188,15 @@ class ChaosHeap:
         ST.stats["heap_push"] += 1
         v = float(v)
         self.n += 1
-        tb = 0.0 if ST.canonical else ST.rng.random()
+        if ST.canonical:
+            tb = 0.0
+        else:
+            tb = ST.rng.random()
+            pol = ST.tie_policy
+            if pol == "lifo":
+                tb = -float(self.n)
+            elif pol == "longest" and isinstance(k, tuple) and k and isinstance(k[0], int):
+                tb = float(k[0]) + tb * 0.5
         entry = (-v, tb, self.n, k)
         self.live[k] = entry
         heapq.heappush(self.h, entry)
